@@ -65,5 +65,29 @@ inline bool waitReady(int fd, short ev, int maxMs = 10000) {
   for (int i = 0; i < maxMs * 4; ++i) { if (pollNow(fd, ev)) return true; sleepUs(250); }
   return false;
 }
+// loopback TCP helpers (raw sockets owned by the harness: the far end of accepted / connected Server clients)
+inline uint16_t localPort(int fd) { sockaddr_in a; socklen_t l = sizeof a; memset(&a, 0, sizeof a); getsockname(fd, (sockaddr*)&a, &l); return ntohs(a.sin_port); }
+inline uint16_t peerPort(int fd) { sockaddr_in a; socklen_t l = sizeof a; memset(&a, 0, sizeof a); if (getpeername(fd, (sockaddr*)&a, &l) != 0) return 0; return ntohs(a.sin_port); }
+inline void lingerReset(int fd, bool on) { struct linger lg; lg.l_onoff = on ? 1 : 0; lg.l_linger = 0; setsockopt(fd, SOL_SOCKET, SO_LINGER, &lg, sizeof lg); }   // close() sends RST: no TIME_WAIT pile-up
+// listening socket on an ephemeral loopback port (retry: bind(0)+listen can collide with another process that is between bind and listen); -1 on failure
+inline int rawListener(uint16_t* port) {
+  sockaddr_in a; memset(&a, 0, sizeof a); a.sin_family = AF_INET; a.sin_addr.s_addr = htonl(INADDR_LOOPBACK);
+  for (int attempt = 0; attempt < 200; ++attempt) {
+    int fd = socket(AF_INET, SOCK_STREAM | SOCK_CLOEXEC, 0);
+    if (fd >= 0 && bind(fd, (sockaddr*)&a, sizeof a) == 0 && listen(fd, 128) == 0) { setNonBlock(fd); *port = localPort(fd); return fd; }
+    if (fd >= 0) close(fd);
+    sleepUs(2000);
+  }
+  return -1;
+}
+// blocking connect to a loopback port; the returned fd is non-blocking and resets on close; -1 on failure
+inline int rawConnect(uint16_t port, int rcvbuf = 0) {
+  int fd = socket(AF_INET, SOCK_STREAM | SOCK_CLOEXEC, 0); if (fd < 0) return -1;
+  if (rcvbuf > 0) setsockopt(fd, SOL_SOCKET, SO_RCVBUF, &rcvbuf, sizeof rcvbuf);
+  sockaddr_in a; memset(&a, 0, sizeof a); a.sin_family = AF_INET; a.sin_addr.s_addr = htonl(INADDR_LOOPBACK); a.sin_port = htons(port);
+  if (connect(fd, (sockaddr*)&a, sizeof a) != 0) { close(fd); return -1; }
+  setNonBlock(fd); lingerReset(fd, true);
+  return fd;
+}
 
 }  // namespace su
